@@ -49,6 +49,10 @@ class Contract:
     setup: Callable[["Ctx"], None] | None = None  # run once per verification to add ghost state
     # case split of every postcondition obligation: fn(ctx) -> list of (cell name, z3 condition)
     split: Callable[["Ctx"], list] | None = None
+    split_all: bool = False
+    # overriding implementations (key prefixes) that are NOT verified against this virtual contract by this check:
+    # callers still assume the contract for them, so they are listed as assumptions in the evidence
+    unverified_impls: tuple[str, ...] = ()  # also split the obligations generated inside the body (callee preconditions, ...)
     symbol: Any = None  # pure contracts: the spec function the call denotes (z3 FuncDecl over the SV arguments)
 
     # -- fluent API used by the sidecar files
@@ -166,6 +170,20 @@ class Registry:
             return c
         c = Contract(key=key, **kw)
         self.contracts[key] = c
+        return c
+
+    def derive(self, key: str, base_key: str, **kw: Any) -> Contract:
+        """An exact-key contract for an override that needs its own loop invariants: same clauses as the base."""
+        b = self.contracts[base_key]
+        c = self.contract(key, **kw)
+        c.requires = list(b.requires)
+        c.ensures = list(b.ensures)
+        c.may_raise = dict(b.may_raise)
+        c.must_raise = list(b.must_raise)
+        c.exc_ensures = list(b.exc_ensures)
+        c.pure, c.attr, c.result_td, c.symbol, c.split, c.split_all = b.pure, b.attr, b.result_td, b.symbol, b.split, b.split_all
+        if not c.properties:
+            c.properties = b.properties
         return c
 
     def get(self, key: str) -> Contract | None:
